@@ -18,6 +18,15 @@ CLAIMED = {
  "C12": ("Coq proofs (induction over the optional-IE list with Go slice length/capacity semantics; fuel-sufficiency for termination) over a hand model + differential correspondence incl. malformed streams with a watchdog",
          "Theorems in coq/Properties/C12.v: for every protected DL NAS TRANSPORT carrying a TS 24.501 PDU SESSION ESTABLISHMENT ACCEPT (any header, ids, QoS rules of any length up to the LV-E limit, any session AMBR, any list of the other optional IEs before the PDU address, anything after) the extractor returns exactly the encoded IPv4 address; for every transfer with an IPv4 GTP tunnel (any IEs with values < 128 octets in front) exactly the encoded TEID and UPF address; on every byte string both walks terminate (never out of fuel). Each run executes the model on the real extractors' results for reference-built inputs (re-encoded by the Coq spec), for transfers built by the library's own aper encoder, and for prefixes/bit flips/splices/random bytes under a 2 s watchdog.",
          "Coq kernel + vm_compute; hand model tied by differential execution; input capacity = length; message layouts transcribed from memory of TS 24.501/24.007 and derived from X.691 by hand (cross-checked against the library encoder each run).", "DESIGN.md §7 C12"),
+ "C15": ("Coq proofs (byte-index rotations = list rotations, lexicographic memcmp = 48-bit order, case analysis of Milenage_check/Milenage_auts) parametric in the block cipher + differential correspondence run",
+         "Theorems in coq/Properties/C15.v, for every 16-octet K/OPc/RAND, 6-octet SQN, 2-octet AMF and ANY block cipher with 16-octet output: the library's f1, f1*, f2..f5*, OPc equal TS 35.206 (Spec/TS35206.v, guarded by TS 35.208 set 1); MilenageGenerate builds the TS 33.102 AUTN; Milenage_check returns 0 with RES/CK/IK iff MAC-A = f1 over the concealed SQN and AMF and that SQN is greater than the UE's (= the USIM procedure accepts), -2 iff not greater with an AUTS that Milenage_auts accepts and that yields the UE's SQN; generation and checking are inverse. Each run executes model and spec on the real exported functions' outputs: random keys, SQN pairs differing only in octet 0 / octet 5, every single-octet and several single-bit corruptions of valid AUTN/AUTS.",
+         "Coq kernel + vm_compute; AES as a Section variable in proofs, Crypto/AES.v (FIPS-197 vector) when executed; hand model tied by differential execution; TS 35.206/33.102 transcribed from memory (TS 35.208 set 1 as Example).", "DESIGN.md §7 C15"),
+ "C05": ("Coq proofs (KDF parameter strings, key-tree composition, SN-name/SUPI string handling) parametric in AES and HMAC-SHA-256 + differential correspondence run",
+         "Theorems in coq/Properties/C05.v for ANY block cipher E and ANY keyed hash H: for all hex K/OPc (or OP only), RAND, AUTN, MCC (3 digits), MNC (2|3 digits), SUPI imsi-<5..15 digits> and algorithm ids, the model of DeriveRESstarAndSetKey/DerivateKamf/DerivateAlgKey (incl. the external wmnsk/milenage calls) returns exactly the network-side (RES*, K_AMF, K_NASint, K_NASenc) of Spec/TS33501.v over Spec/TS35206.v; OP-only configuration = configuring OPc = E_K(OP) xor OP; component theorems for the KDF, SN name, SUPI digits, wmnsk f2345/RES*. Each run executes model and spec (Crypto/SHA256.v, AES.v) on the real DeriveRESstarAndSetKey outputs: 2/3-digit MNC, SUPI 5..15 digits, all 4x4 algorithm ids, OPc and OP-only.",
+         "Coq kernel + vm_compute; AES/HMAC as Section variables in proofs, definitional Coq implementations (FIPS-197, NIST, RFC 4231 vectors) when executed; external library wmnsk/milenage modelled from its source in the module cache and tied by its own stream; TS 33.501 Annex A / TS 33.220 B.2 transcribed from memory.", "DESIGN.md §7 C05"),
+ "C19": ("Coq proofs over driver skeletons and main() wiring REGENERATED from the source by a go/ast translator (reflective check by vm_compute over the finite skeleton data, induction over conversations) + fault enumeration on the real process against an independent reference AMF",
+         "Theorems in coq/Properties/C19.v: every conn.Write/conn.Read/ngap.Decoder result in every procedure driver reaches ManageError (except the decode after Registration Complete) — checked reflectively on the skeletons extracted from the current source; hence for every assignment of the five repetition counts and every uplink message index after which the emulator still does I/O, a closed association stops the run with exit status 1 before the end of the conversation (no banner), in a number of steps bounded by its length; an undecodable reply that is consumed with a checked decode does the same (with any number of still-queued downlink messages). Each run builds main() with the verif hook, runs it against the Python reference AMF over a socketpair and injects close / garbage at EVERY uplink index of two (thorough: four) conversations, comparing exit status, banner and time-to-exit with the model's prediction.",
+         "PARTIAL: bounded time is proved as bounded steps, wall-clock is measured. Coq kernel + vm_compute; go/ast translator harness/gen_driver.go; abstract semantics of a closed/garbled association (OS socket behaviour observed, not proved); Python reference AMF with a frozen golden NGAP schema.", "DESIGN.md §7 C19"),
 }
 PENDING_REASON = "check not built yet in this round (work in progress; see DESIGN.md §7 for the planned proof)"
 
